@@ -2,11 +2,13 @@
 (***************************************************************************)
 (* Record validator (T) for C17.  One record = one observation of the real *)
 (* programs, judged by the monitors of Addr.tla:                           *)
-(*   k = "qa"  qmail-inject -a a          -> QaVerdict                     *)
-(*   k = "qh"  qmail-inject -n -f a, then the printed form fed back in     *)
-(*             To / Cc / Return-Path      -> QhVerdict                     *)
-(*   k = "qs"  real qmail-remote command line fed to the real qmail-smtpd  *)
-(*                                        -> QsVerdict                     *)
+(*   k = "q"   one address a = lp@host through                             *)
+(*             qmail-inject -a a                          -> QaVerdict     *)
+(*             the real qmail-remote's RCPT TO line fed to the real        *)
+(*             qmail-smtpd                                -> QsVerdict     *)
+(*             (hh = 1) qmail-inject -n -f a, the printed form fed back in *)
+(*             To / Cc / Return-Path                      -> QhVerdict     *)
+(*   k = "qm"  the same for a MAIL FROM line              -> QsVerdict     *)
 (*   k = "h"   one run of qmail-inject on a generated header (abstract     *)
 (*             list known by construction) + the second pass               *)
 (*                                        -> ListVerdict                   *)
@@ -25,9 +27,11 @@ Next == \/ g = 0 /\ g' \in 1..G /\ k' = 0
 Spec == Init /\ [][Next]_<<g, k>>
 
 Verdict(r) ==
-  CASE r.k = "qa" -> QaVerdict(r.lp, r.host, r.back)
-    [] r.k = "qh" -> QhVerdict(r.lp, r.host, r.hq, r.b1, r.b2, r.snd)
-    [] r.k = "qs" -> QsVerdict(r.lp, r.host, r.sq, r.sok, r.back)
+  CASE r.k = "q"  -> LET v1 == QaVerdict(r.lp, r.host, r.aback)
+                         v2 == QsVerdict(r.lp, r.host, r.sq, r.sok, r.sback)
+                     IN IF v1 # "" THEN v1 ELSE IF v2 # "" THEN v2
+                        ELSE IF r.hh = 1 THEN QhVerdict(r.lp, r.host, r.hq, r.b1, r.b2, r.snd) ELSE ""
+    [] r.k = "qm" -> QsVerdict(r.lp, r.host, r.sq, r.sok, r.sback)
     [] r.k = "h"  -> ListVerdict(r)
     [] OTHER -> "UnknownRecordKind"
 CheckChunk(c) ==
